@@ -23,6 +23,7 @@ inline rc::Gen<SSong> genSong(bool allow_shared = false, bool allow_ports = fals
                     switch(dsel) { case 0: e.delta = 0; break; case 1: e.delta = 1 + (uint32_t)dv % 127; break; case 2: e.delta = 1 + (uint32_t)dv % 40; break; case 3: e.delta = 128 + (uint32_t)dv % 20000; break; case 4: e.delta = (uint32_t)dv % 3; break; default: e.delta = 16384 + (uint32_t)dv * 19u % 2000000u; break; }
                     int ch = (int)((2 * k + (size_t)(a & 1)) % 16); if(nt2 == 1) ch = a % 16;
                     int key = ((a / 7) % 10 < 7) ? 36 + (a / 2) % 3 : 36 + (a / 2) % 24; // mostly a tiny key set: same-key retriggers and zero-length notes at one tick are common
+                    if((a / 7) % 10 == 9 && (a / 70) % 3 == 0) { static const int edge[] = {0, 1, 126, 127}; key = edge[(a / 2) % 4]; } // now and then the ends of the key range
                     e.running = std::get<5>(r) != 0; serial++;
                     if(shared) { ch = a & 1; key = 36 + (a / 2) % 3; if(kind == 8) kind = 5; }
                     std::vector<uint8_t> stamp = {(uint8_t)k, (uint8_t)((serial >> 7) & 0x7F), (uint8_t)(serial & 0x7F)};
